@@ -361,6 +361,90 @@ func c04NumText(c *Ctx, idx int) {
 	}
 }
 
+// c04Long: members of the grammar that are long, wide or deep (and the same texts with
+// one stray token at the very end): a size limit, a truncating reader or a depth cap
+// lower than the library's documented one shows as a rejected member or an accepted non-member.
+var c04LongSizes = []int{100, 1000, 4095, 4096, 4097, 10000, 65535, 65536, 65537, 300000}
+var c04LongForms = []string{"or-chain", "field-chain", "index-chain", "pipe-chain", "identifier", "raw-string", "json-string", "quoted-identifier", "multi-list", "multi-hash", "args", "whitespace", "json-array", "parens", "brackets", "nots", "calls", "lets", "json-nesting", "filters", "sum-chain", "comparison-in-filter"}
+
+func c04LongN(c *Ctx) int { return len(c04LongSizes) * len(c04LongForms) }
+
+func c04Long(c *Ctx, idx int) {
+	n := c04LongSizes[idx%len(c04LongSizes)]
+	form := c04LongForms[idx/len(c04LongSizes)]
+	deep := n
+	if deep > 4000 {
+		deep = 4000 // nesting stays well below the library's documented depth limit (10000)
+	}
+	rep := strings.Repeat
+	var t string
+	switch form {
+	case "or-chain":
+		t = "a" + rep(" || a", n)
+	case "field-chain":
+		t = "a" + rep(".a", n)
+	case "index-chain":
+		t = "a" + rep("[0]", n)
+	case "pipe-chain":
+		t = "a" + rep(" | a", n)
+	case "sum-chain":
+		t = "a" + rep(" + `1`", n)
+	case "identifier":
+		t = rep("k", n)
+	case "raw-string":
+		t = "'" + rep("x", n) + "'"
+	case "json-string":
+		t = "`\"" + rep("x", n) + "\"`"
+	case "quoted-identifier":
+		t = "\"" + rep("x", n) + "\""
+	case "multi-list":
+		t = "[a" + rep(", a", n) + "]"
+	case "multi-hash":
+		var b strings.Builder
+		b.WriteString("{k0: a")
+		for i := 1; i <= n && i <= 70000; i++ {
+			fmt.Fprintf(&b, ", k%d: a", i)
+		}
+		b.WriteString("}")
+		t = b.String()
+	case "args":
+		t = "not_null(a" + rep(", a", n) + ")"
+	case "whitespace":
+		t = "a" + rep(" ", n) + "||" + rep("\n", n) + "b"
+	case "json-array":
+		t = "`[1" + rep(", 1", n) + "]`"
+	case "parens":
+		t = rep("(", deep) + "a" + rep(")", deep)
+	case "brackets":
+		t = rep("[", deep) + "a" + rep("]", deep)
+	case "nots":
+		t = rep("!", deep) + "a"
+	case "calls":
+		t = rep("abs(", deep) + "a" + rep(")", deep)
+	case "lets":
+		t = rep("let $v = a in ", deep) + "$v"
+	case "json-nesting":
+		t = "`" + rep("[", deep) + rep("]", deep) + "`"
+	case "filters":
+		t = "a" + rep("[?a]", deep) // each projection nests the rest of the chain
+	case "comparison-in-filter":
+		t = "a[?" + "b == `1`" + rep(" && b == `1`", n) + "]"
+	}
+	pr := c.CheckGrammar(t, map[string]string{"family": "long-member", "form": form, "n": fmt.Sprint(n)})
+	if pr.Status == ref.ParseOK {
+		c.Nontrivial(form, fmt.Sprint(n))
+	} else {
+		c.Count("long_member_not_judged:"+form, 1)
+	}
+	// one stray token at the very end
+	for _, junk := range []string{" #", " a", ")", " ||", "]", "'"} {
+		pr2 := c.CheckGrammar(t+junk, map[string]string{"family": "long-nonmember", "form": form, "n": fmt.Sprint(n)})
+		if pr2.Status == ref.ParseSyntax {
+			c.Nontrivial(form, fmt.Sprint(n), junk)
+		}
+	}
+}
+
 func init() {
 	Register(&Property{
 		ID:            "C04",
@@ -372,6 +456,7 @@ func init() {
 			{Name: "edits", Setup: c04Setup, N: func(c *Ctx) int { return c04BaseN(c) }, Run: c04Edits, Exhaustive: true},
 			{Name: "generated", N: func(c *Ctx) int { return tierN(c, 30000, 6000000) }, Run: c04Generated},
 			{Name: "json", N: func(c *Ctx) int { return tierN(c, 20000, 5000000) }, Run: c04JSON},
+			{Name: "long", N: c04LongN, Run: c04Long, Exhaustive: true},
 			{Name: "json-number-text", N: c04NumN, Run: c04NumText, Exhaustive: true},
 		},
 	})
